@@ -26,7 +26,30 @@ func ruleHintVoting(e *Engine, r *Report) {
 			}
 			n++
 			// the hint argument is either the zero ctx, or the target ranges over votingMembers()
-			hint := args[2]
+			// (arguments identified by role, not position: the ctx-typed one and
+			// the one that becomes Message.To)
+			hintIdx, toIdx := 2, 1
+			msgTo := e.Field("raftpb", "Message", "To")
+			for pi, p := range sendHB.Params {
+				if nt, ok := p.Type().(*types.Named); ok && nt.Obj().Name() == "SystemCtx" {
+					hintIdx = pi
+				}
+			}
+			forEachInstr(sendHB, func(in ssa.Instruction) {
+				if st, ok := in.(*ssa.Store); ok {
+					if f, _, ok := fieldOfAddr(st.Addr); ok && f == msgTo {
+						for pi, p := range sendHB.Params {
+							if stripConv(st.Val) == ssa.Value(p) {
+								toIdx = pi
+							}
+						}
+					}
+				}
+			})
+			if hintIdx >= len(args) || toIdx >= len(args) {
+				continue
+			}
+			hint := args[hintIdx]
 			isZero := false
 			if ld, ok := hint.(*ssa.UnOp); ok {
 				if al, ok := ld.X.(*ssa.Alloc); ok {
@@ -49,7 +72,7 @@ func ruleHintVoting(e *Engine, r *Report) {
 			if c, ok := hint.(*ssa.Const); ok && c.Value == nil {
 				isZero = true
 			}
-			toVoting := e.dependsOn(args[1], e.callV(votingMembers), 0) && !e.dependsOn(args[1], func(v ssa.Value) bool { return fieldV(nonVotings)(v) }, 0)
+			toVoting := e.dependsOn(args[toIdx], e.callV(votingMembers), 0) && !e.dependsOn(args[toIdx], func(v ssa.Value) bool { return fieldV(nonVotings)(v) }, 0)
 			r.check(isZero || toVoting, "GD-hint-voting", "heartbeat hint in "+fname(s.Parent())+" #"+itoa(n), e.ipos(s),
 				"a non-zero ReadIndex hint is sent only to votingMembers()", "a ReadIndex hint may be sent to a member that is not in votingMembers()")
 		}
@@ -1504,7 +1527,7 @@ func ruleTanManifestSync(e *Engine, r *Report) {
 		return
 	}
 	n := 0
-	for _, fn := range e.regionOf(la, 0) {
+	for _, fn := range e.regionOf(la, 1) {
 		forEachCall(fn, func(c ssa.CallInstruction) {
 			sc := c.Common().StaticCallee()
 			if sc == nil || sc.Name() != "flush" || len(c.Common().Args) == 0 || !fieldV(man)(c.Common().Args[0]) {
